@@ -23,7 +23,8 @@ t0=$(date +%s)
 if [ "$JOBS" -gt 1 ]; then
   (cd "$F/fuzz" && cargo +nightly fuzz run "$TARGET" -- -runs="$PER" -seed=$((SEED + 1)) -max_len="$MAXLEN" -len_control=0 -print_final_stats=1 -jobs="$JOBS" -workers="$JOBS" >"$LOG" 2>&1)
   rc=$?
-  cat "$F"/fuzz/fuzz-*.log >>"$LOG" 2>/dev/null; rm -f "$F"/fuzz/fuzz-*.log
+  # (the parent's output already contains every job's log: do not append fuzz-*.log again)
+  rm -f "$F"/fuzz/fuzz-*.log
 else
   cargo +nightly fuzz run "$TARGET" -- -runs="$PER" -seed=$((SEED + 1)) -max_len="$MAXLEN" -len_control=0 -print_final_stats=1 >"$LOG" 2>&1
   rc=$?
